@@ -233,8 +233,10 @@ class AM:
                     return max(self._score(self.lets[t.id], a, b), 1 if isinstance(a, ast.Name) else 0)
                 if isinstance(a, ast.Name):
                     if self.is_placeholder(t.id):
-                        return 1 if b.get(t.id, a.id) == a.id else 0
-                    return 1 if t.id == a.id else 0
+                        return 2 if b.get(t.id, a.id) == a.id else 1
+                    return 2 if t.id == a.id else 1
+                if isinstance(a, ast.expr) and self.is_placeholder(t.id):
+                    return 1
                 return 0
             if type(t) is not type(a):
                 if isinstance(a, ast.Name) and a.id in self.single and isinstance(t, ast.expr):
